@@ -17,6 +17,7 @@ def Pre.inputs : Pre → List Bytes
   | .lit _ => []
   | .ref _ => []
   | .node _ ps => evalPureList H ps :: Pre.inputsList ps
+  | .sorted ps => Pre.inputsList ps
 def Pre.inputsList : List Pre → List Bytes
   | [] => []
   | p :: ps => Pre.inputs p ++ Pre.inputsList ps
@@ -78,20 +79,21 @@ theorem pre_seq_inv {i : Nat} {k : SeqKind} {xs : List PyVal} {p : Pre} (h : pre
     exact ⟨ps, rfl, h.symm⟩
 
 theorem pre_set_inv {i : Nat} {f : Bool} {xs : List PyVal} {p : Pre} (h : pre (.set i f xs) = .ok p) :
-    ∃ ps s, preList xs = .ok ps ∧ pySorted (fun a b : PyVal × Pre => pyLt a.1 b.1) (xs.zip ps) = .ok s
-      ∧ p = .node i (lit (setName f ++ HashLits.setOpen) :: s.map (·.2) ++ [lit HashLits.setClose]) := by
+    ∃ ps, preList xs = .ok ps
+      ∧ p = .node i [lit (setName f ++ HashLits.setOpen), .sorted ps, lit HashLits.setClose] := by
   simp only [pre] at h
   cases hps : preList xs with
   | error e => rw [hps] at h; cases h
   | ok ps =>
     rw [hps] at h
-    simp only [except_bind_ok] at h
-    cases hs : pySorted (fun a b : PyVal × Pre => pyLt a.1 b.1) (xs.zip ps) with
-    | error e => rw [hs] at h; cases h
-    | ok s =>
-      rw [hs] at h
-      simp only [except_bind_ok, except_pure, Except.ok.injEq] at h
-      exact ⟨ps, s, rfl, hs, h.symm⟩
+    simp only [except_bind_ok, except_pure, Except.ok.injEq] at h
+    exact ⟨ps, rfl, h.symm⟩
+
+/-- the inputs of a set node -/
+theorem inputs_setNode (i : Nat) (op cl : Bytes) (ps : List Pre) :
+    Pre.inputs H (.node i [lit op, .sorted ps, lit cl]) =
+      evalPureList H [lit op, .sorted ps, lit cl] :: Pre.inputsList H ps := by
+  simp [Pre.inputs, Pre.inputsList, lit]
 
 theorem pre_dict_inv {i : Nat} {xs : List (Scalar × PyVal)} {p : Pre} (h : pre (.dict i xs) = .ok p) :
     ∃ ps s, preItems xs = .ok ps ∧ pySorted (fun a b : Scalar × Pre => scalarLt a.1 b.1) ps = .ok s
@@ -145,7 +147,7 @@ theorem pre_isNode {v : PyVal} {p : Pre} (hg : inG0 v = true) (h : pre v = .ok p
   | ndarray c d s x => simp only [pre, Except.ok.injEq] at h; exact ⟨_, _, h.symm⟩
   | ty t => simp only [pre, Except.ok.injEq] at h; exact ⟨_, _, h.symm⟩
   | seq i k xs => obtain ⟨ps, _, rfl⟩ := pre_seq_inv h; exact ⟨_, _, rfl⟩
-  | set i f xs => obtain ⟨ps, s, _, _, rfl⟩ := pre_set_inv h; exact ⟨_, _, rfl⟩
+  | set i f xs => obtain ⟨ps, _, rfl⟩ := pre_set_inv h; exact ⟨_, _, rfl⟩
   | dict i xs => obtain ⟨ps, s, _, _, rfl⟩ := pre_dict_inv h; exact ⟨_, _, rfl⟩
   | obj i c xs => obtain ⟨ps, s, _, _, rfl⟩ := pre_obj_inv h; exact ⟨_, _, rfl⟩
   | func i b code c g => obtain ⟨cs, _, rfl⟩ := pre_func_inv h; exact ⟨_, _, rfl⟩
